@@ -45,8 +45,11 @@ RULE = ("fields with DISTINCT integer tokens per cell/component and random masks
         "value-checked on corner cells, outer layers and 300 random cells), Region tolerance_factor default, 0, 2^-5, 2^-10, 2^-20, "
         "1e-2, 1e-3, 1e-6, 1e-9 (the model carries the factor), integer-typed corners, coordinates handed over as Python int / float, "
         "numpy float64/float32/float16/int64/int32, ranges as tuple/list/ndarray; pad by tens to a thousand layers in every mode; "
-        "resampling to 48-128 cells along an axis (model) and to / from 1000-4096 cells (oracle on the real code only: the model's "
-        "lookup is quadratic). Malformed requests of every kind the signatures allow (26 kinds of sel value / call shape incl. "
+        "resampling to 48-128 cells along an axis (model: coordinate lookup) and to / from 1000-4096 cells (model: the closed "
+        "form resampleFast, proved equal to the lookup). Stream 'nonfinite' (tags nonfinite:*): selection points / range bounds / box "
+        "corners / lookup points at +inf, -inf, nan (float or numpy.float64) in 14 calls per request - all must be refused (oracle) and "
+        "the extended model (ExtRat, IEEE comparisons) must agree call by call, plus four finite control requests through the same "
+        "extended driver ops. Malformed requests of every kind the signatures allow (26 kinds of sel value / call shape incl. "
         "nan, +-inf, wrong lengths, strings, nested, complex, two axes at once; non-region items and regions of another dimension; "
         "non-integer / wrong-length / non-pair pad widths, unknown mode; non-integer, nested, short, missing resample counts): all refused. "
         "Operand histories (tag history:*; besides the generic aged re-runs): three of four resample cases and a quarter of the other "
@@ -67,14 +70,27 @@ ASSUMPTIONS = ["theorems are about exact rational arithmetic; in the tolerance r
 UNPROVED = ["element type of the result: the rule resultKind (sel/getitem/pad promote to float64 unless complex, resample keeps the kind) "
             "is a three-line model definition checked by correspondence; the theorem result_kind only unfolds it",
             "the hasattr name-clash test of the vdims setter is not modelled (labels of an existing field have passed it)",
-            "composition laws (sel_range_range, sel_plane_comm, getitem_getitem, pad_crop_roundtrip, resample_refine_back_id) are stated "
-            "for given successful intermediate results (acceptance is proved separately: *_accepts, *_accepts_subs, pad_crop_accepts); "
-            "sel_range_range excludes a sub-range whose upper bound lies exactly on the upper face of the first selection, where "
-            "the code attributes the face to different cells before and after the first selection",
+            "composition laws are now ALSO stated on inputs only (sel_range_range_total, sel_plane_comm_total, getitem_getitem_total, "
+            "pad_crop_total, pad_crop_smaller, resample_via_refinement_total, resample_id_total: acceptance of every intermediate step is "
+            "part of the conclusion) and the face exception of sel_range_range is characterised exactly (sel_range_range_face); what "
+            "remains: sel_plane_comm_total needs >= 3 dimensions (on 2-d fields the second selection returns a bare value, "
+            "sel_plane_1d_value), and the totals assume a field in constructor state (MetaInv) with subregions made of whole cells",
+            "acceptance of an extraction box that sticks out of the region by less than the region's own tolerance is not proved "
+            "(getitem_region_accepts needs exact containment, getitem_region_rejected more than the tolerance): no equivalence for "
+            "field[region]; sel, pad, resample and field[name] have accepted <=> well-formed (sel_plane_ok_iff, sel_range_ok_iff, "
+            "pad_ok_iff, resample_ok_iff, getitem_name_ok_iff)",
             "object identity is not modelled: the result's vdim_mapping is the source's dict object in the real code",
-            "resampling from or to thousands of cells along an axis, requests with nan/inf, non-region items, non-integer pad widths "
-            "and resample counts are judged by the oracle on the real code only (tag oracle-only-op): the driver protocol has no "
-            "encoding for them / the model's nearest-coordinate lookup is quadratic in the axis length",
+            "non-finite requests: the model carries +-inf / nan (ExtRat) with the IEEE meaning of <, <=, numpy.isclose, "
+            "numpy.minimum/maximum and sorted() written down as definitions (contract, validated call by call by the stream "
+            "'nonfinite' and the malformed sel kinds nan/inf/-inf/rg*); what the code would compute AFTER the containment test on a "
+            "non-finite value (floor of nan) is not modelled - proved unreachable (containsAxE_true_fin)",
+            "np.pad: the closed-form index maps (periodic / mirrored continuation) are the model; numpy's chunk-by-chunk algorithm "
+            "for widths larger than the axis is not modelled step by step (validated by correspondence on up to a thousand "
+            "layers); pad_reflect_pointwise excludes single-cell axes, where numpy repeats the cell (padSrc: by definition)",
+            "resampling from or to thousands of cells goes through the model's closed form resampleFast (proved equal to the "
+            "nearest-coordinate lookup cell by cell: resample_fast_refines), no longer oracle-only; non-region items, non-integer / "
+            "wrong-shape pad widths and resample counts are type errors outside the rational model: judged by the oracle on the "
+            "real code only (tag oracle-only-op)",
             "FIXED in /repo f823ca7a (finding D118), generated by default: on integer-typed corners a selection coordinate of "
             "type numpy.float32/float16 is truncated to an integer before the cell lookup"]
 BUDGET = {"quick": 95, "thorough": 900}
@@ -714,14 +730,14 @@ def pad_ops_wide(rng, spec):
 
 
 def resample_ops_large(rng, spec, big):
-    """to thousands of cells along one axis (small sources), from thousands of cells (oracle only)"""
+    """to thousands of cells along one axis (small sources), from thousands of cells (model: closed-form lookup)"""
     n = spec["n"]
     ndim = len(n)
     ops = []
     if big:
         for _ in range(2):
             m = [rng.choice([1, 2, 3, 5, 7, k, max(1, k // 2), k + 1, 2 * k]) if k < 100 else rng.choice([1, 2, 3, 7, 100, k // 2, k - 1, k, k + 1]) for k in n]
-            ops.append(dict(op="resample", n=m, nomodel=True, tag="rsfromlarge", xt=["resample:from-thousands"]))
+            ops.append(dict(op="resample", n=m, fast=True, tag="rsfromlarge", xt=["resample:from-thousands"]))
     else:
         m = [rng.choice([1, 2, k]) for k in n]
         a = rng.randrange(ndim)
@@ -729,9 +745,9 @@ def resample_ops_large(rng, spec, big):
         while int(np.prod(m)) > 4200:
             b = max((b for b in range(ndim) if b != a), key=lambda b: m[b])
             m[b] = 1
-        # the model's lookup is quadratic in the number of target cells along an axis: model-checked up to 256 target
-        # cells along one axis, thousands by the oracle on the real code alone
-        ops.append(dict(op="resample", n=m, nomodel=True, tag="rstolarge", xt=["resample:to-thousands"]))
+        # the model's coordinate lookup is quadratic in the axis length: up to 128 target cells along an axis go through
+        # `resample`, thousands through `resampleFast` (the closed form, proved equal cell by cell: resample_fast_refines)
+        ops.append(dict(op="resample", n=m, fast=True, tag="rstolarge", xt=["resample:to-thousands"]))
         m2 = list(m)
         m2[a] = rng.choice([48, 64, 100, 128])
         ops.append(dict(op="resample", n=m2, tag="rstomany", xt=["resample:to-hundreds"]))
@@ -915,8 +931,8 @@ def near_cases(rng, tier):
                     ops += resample_ops(rng, spec, tier)[:3]
             if exact and not big:
                 ops += malformed_ops(rng, spec, fam)
-            if fam in ("sel", "getitem") and not big:
-                ops += nonfinite_ops(rng, spec)
+            if fam == "sel" and not big:
+                ops += nonfinite_ops(rng, spec, 2)
             if not ops:
                 continue
             yield dict(regime=regime, fam=fam, stream="near-big" if big else "near", mesh=spec, subs=subs,
@@ -948,7 +964,7 @@ def cases(rng, tier):
                 ops = pad_ops(rng, spec, tier)
             else:
                 ops = resample_ops(rng, spec, tier)
-            if fam in ("sel", "getitem") and k % 3 == 0:
+            if fam == ("sel", "getitem")[(k // 3) % 2] and k % 3 == 0:  # the calls of a non-finite request do not depend on the family
                 ops = ops + nonfinite_ops(rng, spec)
             yield dict(regime="exact", fam=fam, mesh=spec, subs=subs, nvdim=rng.choice([1, 1, 2, 3]),
                        density=rng.choice([1.0, 0.8, 0.5]), sub=rng.getrandbits(32), ops=ops, hist=pick_hist(rng, fam, k))
@@ -966,7 +982,7 @@ def cases(rng, tier):
                 ops = pad_ops(rng, spec, tier)[:7]
             else:
                 ops = resample_ops(rng, spec, tier)[:4]
-            if fam in ("sel", "getitem") and k % 3 == 0:
+            if fam == ("sel", "getitem")[(k // 3) % 2] and k % 3 == 0:  # the calls of a non-finite request do not depend on the family
                 ops = ops + nonfinite_ops(rng, spec)
             yield dict(regime="tol", fam=fam, mesh=spec, subs=subs, nvdim=rng.choice([1, 2, 3]),
                        density=rng.choice([1.0, 0.7]), sub=rng.getrandbits(32), ops=ops, hist=pick_hist(rng, fam, k))
@@ -1714,45 +1730,73 @@ def run_getbad(ctx, op, r, fail):
 NONFINITE = {"inf": float("inf"), "-inf": float("-inf"), "nan": float("nan")}
 
 
-def nonfinite_ops(rng, spec):
-    """requests at +-inf / nan: not inside any region, so every lookup must refuse them (no rational of the model is
-    non-finite: judged on the real code alone)"""
+def nonfinite_ops(rng, spec, count=2):
+    """requests at +-inf / nan: not inside any region, so every lookup must refuse them. The model carries them as
+    extended coordinates (ExtRat, IEEE comparisons; theorems sel_nonfinite_rejected, getitem_nonfinite_rejected,
+    point2index_ext): judged by the oracle on the real code AND compared with the model, call by call; a few finite
+    control requests go through the same extended driver ops."""
     dims = dims_of(spec)
     ops = []
-    for v in rng.sample(list(NONFINITE), 2):
+    for v in rng.sample(list(NONFINITE), count):
         ax = rng.randrange(len(dims))
         ops.append(dict(op="nonfinite", dim=dims[ax], ax=ax, v=v, np=rng.random() < 0.5,
                         tag="nonfinite-" + v, xt=["nonfinite:" + v]))
     return ops
 
 
-def run_nonfinite(ctx, op, r, fail):
+def nonfinite_calls(ctx, op, mjson=None, fjson=None):
+    """[(name, real call, model request or None (= judged with the previous response), must be refused)]"""
     f, mesh = ctx.f, ctx.mesh
     v = NONFINITE[op["v"]]
     if op.get("np"):
         v = np.float64(v)
-    ax = op["ax"]
+    ax, d = op["ax"], op["dim"]
     x = float(mesh.region.center[ax])
     lo = [float(t) for t in mesh.region.pmin]
     hi = [float(t) for t in mesh.region.pmax]
-    pt = [float(t) for t in mesh.region.center]
+    mid = [float(t) for t in mesh.region.center]
+    pt = list(mid)
     pt[ax] = v
     hi2 = list(hi)
     hi2[ax] = v
     lo2 = list(lo)
     lo2[ax] = v
-    calls = {"mesh.sel(point)": lambda: mesh.sel(**{op["dim"]: v}), "field.sel(point)": lambda: f.sel(**{op["dim"]: v}),
-             "mesh.sel(range hi)": lambda: mesh.sel(**{op["dim"]: (x, v)}), "field.sel(range hi)": lambda: f.sel(**{op["dim"]: (x, v)}),
-             "mesh.sel(range lo)": lambda: mesh.sel(**{op["dim"]: (v, x)}), "field.sel(range lo)": lambda: f.sel(**{op["dim"]: (v, x)}),
-             "mesh[region hi]": lambda: mesh[df.Region(p1=lo, p2=hi2)], "field[region hi]": lambda: f[df.Region(p1=lo, p2=hi2)],
-             "mesh[region lo]": lambda: mesh[df.Region(p1=lo2, p2=hi)], "mesh.region2slices": lambda: mesh.region2slices(df.Region(p1=lo, p2=hi2)),
-             "mesh.point2index": lambda: mesh.point2index(pt), "field(point)": lambda: f(pt)}
+    mj = lambda: mjson
+    fj = lambda: fjson
+    E = Q   # core.Q writes non-finite floats as "inf" / "-inf" / "nan", the driver's encoding of ExtRat
+    return [
+        ("conv(point)", lambda: mesh._sel_convert_input(**{d: v}), lambda: dict(op="sel_convert_e", mesh=mj(), dim=d, arg={"point": E(v)}), True),
+        ("mesh.sel(point)", lambda: mesh.sel(**{d: v}), lambda: dict(op="mesh_sel_e", mesh=mj(), dim=d, arg={"point": E(v)}), True),
+        ("field.sel(point)", lambda: f.sel(**{d: v}), lambda: dict(op="field_sel_e", field=fj(), dim=d, arg={"point": E(v)}), True),
+        ("mesh.sel(range hi)", lambda: mesh.sel(**{d: (x, v)}), lambda: dict(op="mesh_sel_e", mesh=mj(), dim=d, arg={"range": [E(x), E(v)]}), True),
+        ("field.sel(range hi)", lambda: f.sel(**{d: (x, v)}), None, True),
+        ("mesh.sel(range lo)", lambda: mesh.sel(**{d: (v, x)}), lambda: dict(op="mesh_sel_e", mesh=mj(), dim=d, arg={"range": [E(v), E(x)]}), True),
+        ("field.sel(range lo)", lambda: f.sel(**{d: (v, x)}), None, True),
+        ("mesh[region hi]", lambda: mesh[df.Region(p1=lo, p2=hi2)], lambda: dict(op="mesh_getitem_e", mesh=mj(), p1=Qs(lo), p2=Qs(hi2)), True),
+        ("field[region hi]", lambda: f[df.Region(p1=lo, p2=hi2)], lambda: dict(op="field_getitem_e", field=fj(), p1=Qs(lo), p2=Qs(hi2)), True),
+        ("mesh[region lo]", lambda: mesh[df.Region(p1=lo2, p2=hi)], lambda: dict(op="mesh_getitem_e", mesh=mj(), p1=Qs(lo2), p2=Qs(hi)), True),
+        ("mesh.region2slices", lambda: mesh.region2slices(df.Region(p1=lo, p2=hi2)), lambda: dict(op="region2slices_e", mesh=mj(), p1=Qs(lo), p2=Qs(hi2)), True),
+        ("mesh.region2slices lo", lambda: mesh.region2slices(df.Region(p1=lo2, p2=hi)), lambda: dict(op="region2slices_e", mesh=mj(), p1=Qs(lo2), p2=Qs(hi)), True),
+        ("mesh.point2index", lambda: mesh.point2index(pt), lambda: dict(op="point2index_e", mesh=mj(), point=Qs(pt)), True),
+        ("field(point)", lambda: f(pt), None, True),
+        # finite controls through the same extended driver ops (compared with the model only)
+        ("ctl mesh.sel(point)", lambda: mesh.sel(**{d: x}), lambda: dict(op="mesh_sel_e", mesh=mj(), dim=d, arg={"point": E(x)}), False),
+        ("ctl mesh.point2index", lambda: mesh.point2index(mid), lambda: dict(op="point2index_e", mesh=mj(), point=Qs(mid)), False),
+        ("ctl mesh[region]", lambda: mesh[df.Region(p1=lo, p2=hi)], lambda: dict(op="mesh_getitem_e", mesh=mj(), p1=Qs(lo), p2=Qs(hi)), False),
+        ("ctl mesh.region2slices", lambda: mesh.region2slices(df.Region(p1=lo, p2=hi)), lambda: dict(op="region2slices_e", mesh=mj(), p1=Qs(lo), p2=Qs(hi)), False),
+    ]
+
+
+N_NONFINITE_REQ = 15
+
+
+def run_nonfinite(ctx, op, r, fail):
     r["expect"] = "err"
     r["calls"] = {}
-    for name, fn in calls.items():
+    for name, fn, _req, refuse in nonfinite_calls(ctx, op):
         got = attempt(fn)
-        r["calls"][name] = got[0]
-        if got[0] != "err":
+        r["calls"][name] = got
+        if refuse and got[0] != "err":
             fail(f"[{op['v']} along {op['dim']}] {name}: a request at a non-finite coordinate (outside every region) was accepted")
 
 
@@ -1851,7 +1895,17 @@ def model_requests(case, obs):
         kind = op["op"]
         if nreq(op) == 0:
             continue
-        if kind == "sel":
+        if kind == "nonfinite":
+            reqs += [mk() for _name, _fn, mk, _refuse in nonfinite_calls(ctx, op, mj, fj) if mk is not None]
+        elif kind == "sel" and op["arg"] in NONFIN_SEL:
+            # malformed-stream requests with a non-finite value: sent as they are (extended coordinates), not as `bad`
+            x = Q(op.get("x", 0.0))
+            a = {"nan": {"point": "nan"}, "inf": {"point": "inf"}, "-inf": {"point": "-inf"}, "rginf": {"range": [x, "inf"]},
+                 "rg-inf": {"range": ["-inf", x]}, "rgnan": {"range": ["nan", x]}, "rgnan2": {"range": [x, "nan"]}}[op["arg"]]
+            reqs.append(dict(op="sel_convert_e", mesh=mj, dim=op["dim"], arg=a))
+            reqs.append(dict(op="mesh_sel_e", mesh=mj, dim=op["dim"], arg=a))
+            reqs.append(dict(op="field_sel_e", field=fj, dim=op["dim"], arg=a))
+        elif kind == "sel":
             a = arg_json(op["arg"])
             reqs.append(dict(op="sel_convert", mesh=mj, dim=op["dim"], arg=a))
             reqs.append(dict(op="mesh_sel", mesh=mj, dim=op["dim"], arg=a))
@@ -1870,7 +1924,7 @@ def model_requests(case, obs):
             reqs.append(dict(op="mesh_pad", mesh=mj, pad=pw))
             reqs.append(dict(op="field_pad", field=fj, pad=pw, mode=op["mode"]))
         elif kind == "resample":
-            reqs.append(dict(op="resample", field=fj, n=op["n"]))
+            reqs.append(dict(op="resample_fast" if op.get("fast") else "resample", field=fj, n=op["n"]))
         if case.get("meta"):
             reqs.append(dict(op="result_kind", fam=FAM_OF[kind], kind=obs["src_kind"]))
     return reqs
@@ -1879,7 +1933,8 @@ def model_requests(case, obs):
 FAM_OF = {"sel": "sel", "getname": "getitem", "getregion": "getitem", "pad": "pad", "resample": "resample", "r2s": "getitem"}
 
 
-NREQ = {"sel": 3, "getname": 2, "getregion": 2, "r2s": 1, "pad": 2, "resample": 1, "getbad": 0, "nonfinite": 0}
+NREQ = {"sel": 3, "getname": 2, "getregion": 2, "r2s": 1, "pad": 2, "resample": 1, "getbad": 0, "nonfinite": N_NONFINITE_REQ}
+NONFIN_SEL = ("nan", "inf", "-inf", "rginf", "rg-inf", "rgnan", "rgnan2")
 
 
 def nreq(op):
@@ -1987,6 +2042,17 @@ def compare(case, obs, rs):
                 dis.append(f"{name}: element type of the result is kind {r['kind']!r} for a source of kind "
                            f"{obs['src_kind']!r}, the model says {kresp.get('ok')!r}")
         d0 = len(dis)
+        if kind == "nonfinite":
+            name += f"({op['v']} along {op['dim']})"
+            it = iter(resp)
+            last = None
+            for cname, _fn, mk, _refuse in nonfinite_calls(ctx, op):
+                if mk is not None:
+                    last = next(it)
+                got = r["calls"][cname]
+                if got[0] != okerr(last):
+                    dis.append(f"{name} {cname}: impl {got[0]} ({got[1] if got[0] == 'err' else ''}) vs model {okerr(last)}")
+            continue
         if kind == "sel":
             name += f"({op['dim']}={op['arg']})"
             ax = r.get("ax")
